@@ -62,13 +62,29 @@ def _pairs(rng, ver, tier):
                         yield tv, tp, ev, ep, ('equal' if ep == tp else 'nested')
             # supernets of T
             for ep in set([0, max(tp - 1, 0), rng.randrange(0, tp + 1)]):
-                ev = first | rng.getrandbits(w - ep) if (rng.random() < 0.5 and ep < w) else first
+                k = rng.random()
+                if k < 0.35 and ep < w:
+                    ev = first | rng.getrandbits(w - ep)          # host bits
+                elif k < 0.7:
+                    ev = (first >> (w - ep)) << (w - ep)          # written as a true CIDR (no host bits)
+                else:
+                    ev = first
                 yield tv, tp, ev, ep, 'super'
             # adjacent / near / far
             for ev in (first - 1, last + 1, first - 2, last + 2, rand_value(rng, w)):
                 if 0 <= ev <= m:
                     for ep in set([w, tp, rng.randrange(0, w + 1)]):
                         yield tv, tp, ev, ep, 'outside'
+    if ver == 6:
+        # the bottom of the IPv6 space: a (value, prefixlen) pair with value < 2^32 and prefixlen <= 32 is exactly what
+        # a constructor call without an explicit version reads as IPv4 (seeds C09-r9-1, C11-r9-1, C09-r11-2)
+        for tp in list(range(0, 34)) * mult:
+            for ev, ep in ((rng.getrandbits(128 - tp) if tp < 128 else 0, 128), ((1 << 127) >> rng.randrange(0, 32), 128),
+                           (rng.getrandbits(32), 128), (rng.getrandbits(96) << 32 >> tp if tp else rng.getrandbits(128), rng.choice([33, 48, 64, 96, 127])),
+                           (0, rng.randrange(tp, 129))):
+                ev &= m
+                if (ev >> (w - tp)) == 0 or tp == 0:
+                    yield 0, tp, ev, ep, 'v6-bottom'
     for _ in range(300 * mult):
         tv, tp = rand_block(rng, ver)
         ev, ep = rand_block(rng, ver, near=(tv, tp))
@@ -79,7 +95,7 @@ def generate(rng, tier):
     cases = []
     for ver in (4, 6):
         for tv, tp, ev, ep, tag in _pairs(rng, ver, tier):
-            op = 'exclude' if rng.random() < 0.15 else 'partition'
+            op = 'exclude' if rng.random() < (0.5 if tag == 'v6-bottom' else 0.25) else 'partition'
             cases.append(_case(op, ver, tv, tp, ev, ep, tag))
     return cases
 
@@ -88,13 +104,30 @@ def _show(n):
     return '%d:%d/%d' % (n.version, n.value, n.prefixlen)
 
 
+def _arg(ver, v, p, salt):
+    """a network argument in one of the forms the functions document ("IP address or subnet"), chosen by a stable hash:
+    an IPNetwork object (lived-in), the CIDR text, or - for a host-sized block - an IPAddress object / its text"""
+    import zlib
+    from netaddr import IPAddress
+    w = W[ver]
+    h = zlib.crc32(('%d/%d/%d/%s' % (ver, v, p, salt)).encode()) % 8
+    common.COUNTS['call/c09-argument-form-%s' % ('net' if h < 4 else 'str' if h < 6 else 'addr' if p == w else 'net')] += 1
+    if h < 4:
+        return common.make_net(ver, v, p)
+    if h < 6:
+        return '%s/%d' % (IPAddress(v, ver), p)
+    if p == w:
+        return common.make_addr(ver, v) if h == 6 else str(IPAddress(v, ver))
+    return common.make_net(ver, v, p)
+
+
 def impl(c):
     op, ver, tv, tp, ev, ep = c.args
     # every question is asked twice, the blocks of the first answer being moved in place in between (common.twice)
     if op == 'partition':
-        b, mid, a = common.twice(lambda: cidr_partition(common.make_net(ver, tv, tp), common.make_net(ver, ev, ep)))
+        b, mid, a = common.twice(lambda: cidr_partition(_arg(ver, tv, tp, 't'), _arg(ver, ev, ep, 'e')))
         return ' '.join(plist(_show(x) for x in l) for l in (b, mid, a))
-    return plist(_show(x) for x in common.twice(lambda: cidr_exclude(common.make_net(ver, tv, tp), common.make_net(ver, ev, ep))))
+    return plist(_show(x) for x in common.twice(lambda: cidr_exclude(_arg(ver, tv, tp, 't'), _arg(ver, ev, ep, 'e'))))
 
 
 def _parse(s):
